@@ -11,7 +11,15 @@ KINDS = {
     0: {"name": "Mut<Account<Fix>> (8-byte discriminant)", "disc": [1, 2, 3, 4, 5, 6, 7, 8]},
     1: {"name": "Mut<Account<Fix1>> (1-byte discriminant)", "disc": [0xA5]},
     2: {"name": "Mut<BorshAccount<Bo>> (8-byte discriminant)", "disc": [0xB0, 0, 0, 0, 0, 0, 0, 1]},
+    # case code 3 + n: the account starts holding Bo { v: [7; n] }; the instruction assigns the value the case's account data
+    # spells out (= the image after the write-back the cleanup performs first) and cleans up through the cleanup ARGUMENT
+    3: {"name": "Mut<BorshAccount<Bo>>, value resized in the instruction, cleanup arguments", "disc": [0xB0, 0, 0, 0, 0, 0, 0, 1]},
 }
+
+
+def kinfo(p):
+    return KINDS[min(p["kind"], 3)]
+
 OPS = ["normalize_rent", "refund_rent", "receive_rent", "close_account"]
 VIAS = ["trait method", "cleanup arg (&explicit)", "cleanup arg () with cache filled by #[validate(funder|recipient)]",
         "cleanup arg () with empty cache", "cleanup arg () with another account cached first"]
@@ -22,7 +30,7 @@ RULE = ("seeded random product, every axis forced: operation {normalize, refund,
         "another account cached first} x account type {Account<pod> w=8, w=1, BorshAccount} x funder {Mut<Signer>, "
         "Mut<Seeded<SystemAccount>>} / recipient {Mut<AccountInfo>, Mut<SystemAccount>} x balance {0, 1, half, min-1, min, "
         "min+1, far above, 2^64-1-others} x data length {w .. 300} x rent {0,1,3480,6960,10^9 per byte} x threshold {1.0,2.0} "
-        "x funder balance {rich, exactly the shortfall, one short}; a few cases with supply >= 2^64, read-only or foreign "
+        "x funder balance {rich, exactly the shortfall, one short}; one case in six is a BorshAccount whose value changes its serialized size in the instruction before the cleanup argument (explicit, cached, empty cache, other cached first) writes it back and adjusts the rent - balances around the minimum of the OLD and of the NEW size; a few cases with supply >= 2^64, read-only or foreign "
         "accounts (outside the property's domain; compared with the model only). non-trivial = the operation ran on a "
         "program-owned writable account")
 TRUSTED = [
@@ -36,7 +44,7 @@ ASSUMPTIONS = [
     "the system program and the runtime's CPI privilege rules are an oracle (coq/Rent/Ledger.v), shared with the harness",
     "min_balance is any function into u64; every balance and the total supply are below 2^64",
     "funder / recipient are accounts other than the one being cleaned up; the account is program-owned and writable",
-    "BorshAccount's rent cleanups serialise the value first (C15); the rent functions themselves are exercised on it directly",
+    "BorshAccount's rent cleanups serialise the value first (C15): the model sees the image after the write-back (case code kind = 3 + old length)",
 ]
 
 
@@ -73,9 +81,19 @@ def scenario(rng):
     funder_op = p["op"] in (0, 2)
     p["lpby"] = rng.weighted([(3480, 5), (6960, 2), (1, 2), (0, 1), (10 ** 9, 1)])
     p["mult"] = rng.choice([2, 2, 1])
-    disc = KINDS[p["kind"]]["disc"]
+    resized = rng.chance(1, 6)
+    if resized:
+        # BorshAccount whose value changes its serialized size before the cleanup runs (every route but the bare trait call)
+        p["kind"] = 3 + rng.choice([0, 0, 3, 20, 40])
+        p["via"] = rng.weighted([(1, 4), (2, 3), (3, 1), (4, 2)])
+        p["okind"] = 0 if p["via"] in (2, 4) else rng.weighted([(0, 3), (1, 2)])
+        funder_op = p["op"] in (0, 2)
+    disc = kinfo(p)["disc"]
     w = len(disc)
-    if p["kind"] == 2:
+    if p["kind"] >= 3:
+        n = rng.choice([0, 3, 20, 40, 41, 100])
+        body = [n, 0, 0, 0] + rng.bytes(n)
+    elif p["kind"] == 2:
         n = rng.choice([0, 3, 20])
         body = [n, 0, 0, 0] + rng.bytes(n)
     else:
@@ -88,6 +106,10 @@ def scenario(rng):
         okey = R.find_pda(p["oseeds"])[0] if rng.chance(19, 20) else rng.bytes(32)
     b = rng.below(12)
     lam = [0, 0, 1, max(minb // 2, 1), max(minb - 1, 0), minb, minb, minb + 1, minb + 1000, minb + 10 ** 12, None, minb][b]
+    if p["kind"] >= 3 and rng.chance(1, 2):
+        # balances around the minimum of the size the account had BEFORE the write-back
+        mpre = R.min_balance(p["lpby"], p["mult"], w + 4 + (p["kind"] - 3))
+        lam = rng.choice([mpre, max(mpre - 1, 0), mpre + 1, (mpre + minb) // 2])
     third_lam = rng.choice([0, 1, 10 ** 9])
     short = max(0, minb - (lam or 0))
     olam = rng.choice([short, short + 1, 10 ** 9 + short, 10 ** 15 + short, max(short - 1, 0)])
@@ -100,6 +122,8 @@ def scenario(rng):
     osigner = not (funder_op and p["okind"] == 1)
     oowner, owritable, odata = R.SYS, True, []
     x = rng.below(40)
+    if p["kind"] >= 3 and x in (0, 1, 7):
+        x = 8           # (a read-only / foreign / closed account is not written back: its image would not be the case's)
     if x == 0:
         awritable = False
     elif x == 1:
@@ -173,7 +197,7 @@ def predicate(c, obs):
         return None
     a0, o0, t0 = p["account"], p["other"], p["third"]
     op, via = p["op"], p["via"]
-    w = len(KINDS[p["kind"]]["disc"])
+    w = len(kinfo(p)["disc"])
     minb = R.min_balance(p["lpby"], p["mult"], len(a0["data"]))
     if o["tag"] == 2:
         return "panic in %s" % OPS[op]
@@ -224,7 +248,7 @@ def predicate(c, obs):
 
 def describe(c):
     p = decode(c)
-    return {"operation": OPS[p["op"]], "route": VIAS[p["via"]], "account_type": KINDS[p["kind"]]["name"],
+    return {"operation": OPS[p["op"]], "route": VIAS[p["via"]], "account_type": kinfo(p)["name"], "value_length_before_the_instruction": (p["kind"] - 3) if p["kind"] >= 3 else None,
             "other_kind": p["okind"], "lamports_per_byte_year": p["lpby"], "exemption_threshold": float(p["mult"]),
             "min_balance": R.min_balance(p["lpby"], p["mult"], len(p["account"]["data"])),
             "account": p["account"], "other (funder/recipient)": p["other"], "third": p["third"], "other_seeds": p["oseeds"]}
@@ -244,7 +268,7 @@ def shrink(c):
         return build(q)
     if p["via"] != 0 and not (p["kind"] == 2):
         yield rebuilt(via=0)
-    if len(p["account"]["data"]) > 21:
+    if len(p["account"]["data"]) > 21 and p["kind"] < 3:
         a = dict(p["account"])
         a["data"] = a["data"][:21]
         yield rebuilt(account=a)
@@ -264,7 +288,7 @@ def distribution(cases, impl):
         o = parse_obs(impl.get(cid)) or {"tag": -1}
         cn["op=%s" % OPS[p["op"]]] += 1
         cn["via=%d" % p["via"]] += 1
-        cn["kind=%d" % p["kind"]] += 1
+        cn["kind=%d" % min(p["kind"], 3)] += 1
         if o["tag"] == 0:
             cn["ok"] += 1
             cn["ok cpis=%d" % len(o["log"])] += 1
